@@ -129,6 +129,8 @@ type c19LeafSpec struct {
 	selfCA    bool // self-signed leaf that also claims to be a CA
 	selfSubj  *pkix.Name
 	serial    *big.Int // nil = a fresh random serial number
+	skid      []byte   // subject key identifier extension (nil = none)
+	akid      []byte   // authority key identifier extension (nil = what the signer implies)
 }
 
 func c19Leaf(s c19LeafSpec) (der []byte, key *ecdsa.PrivateKey) {
@@ -149,6 +151,12 @@ func c19Leaf(s c19LeafSpec) (der []byte, key *ecdsa.PrivateKey) {
 		NotAfter:     s.notAfter,
 		KeyUsage:     x509.KeyUsageDigitalSignature,
 		ExtKeyUsage:  []x509.ExtKeyUsage{x509.ExtKeyUsageServerAuth},
+	}
+	if s.skid != nil {
+		tmpl.SubjectKeyId = s.skid
+	}
+	if s.akid != nil {
+		tmpl.AuthorityKeyId = s.akid
 	}
 	if s.selfCA {
 		tmpl.IsCA = true
